@@ -45,14 +45,14 @@ def f32Repr (k : Node) (w : Val) : Bool :=
   | some (.float b), .float fx => !(b == 32) || roundF32 fx == fx
   | _, _ => true
 
-/-- What the theorem needs of one map key whose text the iterator asks for:
+/-- What the theorem needs of one map key whose text the iterator asks for (a nil pointer key meets the
+last two trivially: the repaired emitter hands over an empty text for it, and the property accepts any):
 * the key type is not `byte` (C14 class `byte-map-key`: such an inspector does not compile; the spec's
   `specKey` refuses to read a byte key text),
-* the key is not a nil pointer (`*k` in the emitted key rendering panics),
 * the strconv oracle round-trips the rendered text,
 * a float32 key is float32-representable. -/
 def keyOK (o : Bytes → Seg) (ft : Val → Bytes) (k : Node) (key : Val) : Bool :=
-  !(k.typn == "byte" || k.typu == "byte") && !key.isNilPtr && oracleRT o ft key.strip && f32Repr k key.strip
+  !(k.typn == "byte" || k.typu == "byte") && oracleRT o ft key.strip && f32Repr k key.strip
 
 /-- `keyOK` at every position the iteration reaches and where the script asks for the key. -/
 def entriesKeysOK (o : Bytes → Seg) (ft : Val → Bytes) (sc : LoopScript) (k : Node) : List Val → Nat → Bool
@@ -141,11 +141,11 @@ theorem WT_basic_scalar (i : Info) (w : Val) (hp : i.ptr = false) (h : WT (.basi
     cases w <;> simp_all [WT, Node.ptr, Node.info, wtScalar]
 
 /-- Non-pointer key: the text rendered for it denotes the key. -/
-theorem renderKey_parses_nonptr (o : Bytes → Seg) (ft : Val → Bytes) (i : Info) (w : Val)
+theorem renderKey_parses_nonptr (nkp : Bool) (o : Bytes → Seg) (ft : Val → Bytes) (i : Info) (w : Val)
     (hp : i.ptr = false) (hwt : WT (.basic i) w = true)
     (hbyte : (i.typn == "byte" || i.typu == "byte") = false)
     (hrt : oracleRT o ft w = true) (hf : f32Repr (.basic i) w = true) :
-    ∃ t, renderKey (.basic i) w ft = some t ∧ specKey (.basic i) (segOf o t) = .key w := by
+    ∃ t, renderKey nkp (.basic i) w ft = some t ∧ specKey (.basic i) (segOf o t) = .key w := by
   obtain ⟨kd, hkd, hs⟩ := WT_basic_scalar i w hp hwt
   have hb1 : (i.typn == "byte") = false := by
     cases h : (i.typn == "byte") <;> simp_all
@@ -191,49 +191,60 @@ theorem renderKey_parses_nonptr (o : Bytes → Seg) (ft : Val → Bytes) (i : In
     unfold specKey
     simp [Node.ptr, Node.info, Node.typu, Node.typn, hkd, hp]
 
-/-- Any key (pointer-typed or not): the emitted rendering does not panic and its text parses back, by the
-property's reading of the key type, to the key the entry is stored under. -/
+/-- The key test `mapGroupsOk` applies to the group standing for the entry stored under `key`: the text
+parses back, by the property's reading of the key type, to that key; for a nil pointer key, which no text
+denotes, any text passes. -/
+def mapKeyOk (k : Node) (key : Val) (s : Seg) : Bool :=
+  key.isNilPtr ||
+  match specKey (k.withPtr false) s with
+  | .key k' => k' == key.strip
+  | _ => false
+
+/-- Any key (pointer-typed or not, nil or not): the repaired key rendering does not panic and its text
+passes the property's key test for the entry: it parses back, by the property's reading of the key type, to
+the key the entry is stored under (nil pointer key: empty text, nothing to parse back). -/
 theorem renderKey_parses (o : Bytes → Seg) (ft : Val → Bytes) (ki : Info) (key : Val)
     (hwt : WT (.basic ki) key = true) (hok : keyOK o ft (.basic ki) key = true) :
-    ∃ t, renderKey (.basic ki) key ft = some t ∧
-      specKey ((Node.basic ki).withPtr false) (segOf o t) = .key key.strip := by
+    ∃ t, renderKey false (.basic ki) key ft = some t ∧ mapKeyOk (.basic ki) key (segOf o t) = true := by
   unfold keyOK at hok
   simp only [Bool.and_eq_true, Bool.not_eq_true'] at hok
-  obtain ⟨⟨⟨hbyte, hnil⟩, hrt⟩, hf⟩ := hok
+  obtain ⟨⟨hbyte, hrt⟩, hf⟩ := hok
+  have fin : ∀ t, specKey ((Node.basic ki).withPtr false) (segOf o t) = .key key.strip →
+      mapKeyOk (.basic ki) key (segOf o t) = true := by
+    intro t hs
+    unfold mapKeyOk
+    simp only [hs, Val.beq_refl', Bool.or_true]
   rcases WT_ptr_cases _ _ hwt with ⟨hp, hv⟩ | ⟨hp, hn1, hn2⟩
-  · rcases hv with hv | ⟨w, hv, hw⟩
-    · subst hv; simp [Val.isNilPtr] at hnil
+  · have hp2 : ki.ptr = true := by simpa [Node.ptr, Node.info] using hp
+    rcases hv with hv | ⟨w, hv, hw⟩
     · subst hv
-      rw [withPtr_basic] at hw ⊢
+      refine ⟨[], ?_, ?_⟩
+      · simp [renderKey, Node.ptr, Node.info, hp2]
+      · simp [mapKeyOk, Val.isNilPtr]
+    · subst hv
+      rw [withPtr_basic] at hw
       rcases WT_ptr_cases _ _ hw with ⟨hp', _⟩ | ⟨_, hn1, hn2⟩
       · simp [Node.ptr, Node.info] at hp'
       · have hst : (Val.ptr w).strip = w := by
           show w.strip = w
           exact strip_of_nonptr w hn1 hn2
-        rw [hst] at hrt hf ⊢
-        obtain ⟨t, ht, hk⟩ := renderKey_parses_nonptr o ft { ki with ptr := false } w rfl hw
+        rw [hst] at hrt hf
+        obtain ⟨t, ht, hk⟩ := renderKey_parses_nonptr false o ft { ki with ptr := false } w rfl hw
           (by simpa [Node.typn, Node.typu, Node.info] using hbyte) hrt
           (by simpa [f32Repr, Node.typu, Node.info] using hf)
-        refine ⟨t, ?_, hk⟩
-        have hp2 : ki.ptr = true := by simpa [Node.ptr, Node.info] using hp
-        simp only [renderKey, Node.ptr, Node.info, hp2, if_true] at ht ⊢
-        simpa using ht
+        refine ⟨t, ?_, fin t ?_⟩
+        · simp only [renderKey, Node.ptr, Node.info, hp2, if_true] at ht ⊢
+          simpa using ht
+        · rw [withPtr_basic, hst]; exact hk
   · have hp2 : ki.ptr = false := by simpa [Node.ptr, Node.info] using hp
     have hst : key.strip = key := strip_of_nonptr key hn1 hn2
-    rw [hst] at hrt hf ⊢
+    rw [hst] at hrt hf
     have hwp : (Node.basic ki).withPtr false = .basic ki := withPtr_false_of_not_ptr _ hp
-    rw [hwp]
-    exact renderKey_parses_nonptr o ft ki key hp2 hwt
+    obtain ⟨t, ht, hk⟩ := renderKey_parses_nonptr false o ft ki key hp2 hwt
       (by simpa [Node.typn, Node.typu, Node.info] using hbyte) hrt hf
+    exact ⟨t, ht, fin t (by rw [hwp, hst]; exact hk)⟩
 
 /-! ### Maps: every entry once, stop after Break -/
-
-/-- The key test `mapGroupsOk` applies to the group standing for the entry stored under `key`: the text
-parses back, by the property's reading of the key type, to that key. -/
-def mapKeyOk (k : Node) (key : Val) (s : Seg) : Bool :=
-  match specKey (k.withPtr false) s with
-  | .key k' => k' == key.strip
-  | _ => false
 
 theorem pick_head (k mv : Node) (g : ObsGroup) (want : Bool) (key x : Val) (ks vs : List Val)
     (h : groupMatches mv want (mapKeyOk k key) x g = true) :
@@ -261,9 +272,9 @@ theorem loopEntries_correct (o : Bytes → Seg) (ft : Val → Bytes) (sc : LoopS
     (hwfk : NodeWF (.basic ki) = true) :
     ∀ (ks vs : List Val) (i : Nat), ks.length = vs.length → WTall (.basic ki) ks = true →
       entriesKeysOK o ft sc (.basic ki) ks i = true →
-      (loopEntries sc (.basic ki) mv ft ks vs i).fin = .done ∧
-      (loopEntries sc (.basic ki) mv ft ks vs i).groups.length + i = expectedCount.go sc (i + ks.length) i ks.length ∧
-      mapGroupsOk sc (.basic ki) mv ks vs ((loopEntries sc (.basic ki) mv ft ks vs i).groups.map (obsOf o)) i = true := by
+      (loopEntries false sc (.basic ki) mv ft ks vs i).fin = .done ∧
+      (loopEntries false sc (.basic ki) mv ft ks vs i).groups.length + i = expectedCount.go sc (i + ks.length) i ks.length ∧
+      mapGroupsOk sc (.basic ki) mv ks vs ((loopEntries false sc (.basic ki) mv ft ks vs i).groups.map (obsOf o)) i = true := by
   intro ks
   induction ks with
   | nil =>
@@ -279,16 +290,13 @@ theorem loopEntries_correct (o : Bytes → Seg) (ft : Val → Bytes) (sc : LoopS
       simp only [entriesKeysOK, Bool.and_eq_true, Bool.or_eq_true, Bool.not_eq_true'] at hok
       obtain ⟨hkey, hrest⟩ := hok
       -- the key text
-      have hkt : ∃ t, (if scriptAt sc.wantKey i false then renderKey (.basic ki) key ft else some []) = some t ∧
+      have hkt : ∃ t, (if scriptAt sc.wantKey i false then renderKey false (.basic ki) key ft else some []) = some t ∧
           (scriptAt sc.wantKey i false = true → mapKeyOk (.basic ki) key (segOf o t) = true) := by
         rcases hkey with hw | hk
         · exact ⟨[], by simp [hw], fun h => by simp [hw] at h⟩
         · obtain ⟨t, ht, hs⟩ := renderKey_parses o ft ki key hwt.1 hk
           by_cases hw : scriptAt sc.wantKey i false = true
-          · refine ⟨t, by simp [hw, ht], fun _ => ?_⟩
-            unfold mapKeyOk
-            simp only [hs]
-            exact Val.beq_refl' _
+          · exact ⟨t, by simp [hw, ht], fun _ => hs⟩
           · exact ⟨[], by simp [hw], fun h => absurd h hw⟩
       obtain ⟨t, ht, hkeyok⟩ := hkt
       have hg := groupMatches_obsOf o mv (scriptAt sc.wantKey i false) (mapKeyOk (.basic ki) key) x t hkeyok
@@ -446,7 +454,8 @@ theorem loopN_map_correct (o : Bytes → Seg) (ft : Val → Bytes) (sc : LoopScr
       | basic ki =>
         obtain ⟨h1, h2, h3⟩ := loopEntries_correct o ft sc ki mv hwfk ks vs 0 hlen hwtk hk
         simp only [Nat.add_zero, Nat.zero_add] at h2
-        simp only [h1, List.length_map, h2, h3, expectedCount]
+        have hcfg : GenCfg.fixed.loopNilKeyPanics = false := rfl
+        simp only [hcfg, h1, List.length_map, h2, h3, expectedCount]
         simp
       | _ => simp [Node.isBasicTyp] at hkb
 
